@@ -2,7 +2,7 @@
    Only statements; proofs are in Proofs/ResP*.v and Proofs/WorkerP*.v. *)
 From Coq Require Import ZArith Bool List.
 Import ListNotations.
-From Verif Require Import Model.Val Model.Res Model.Worker Proofs.ResP.
+From Verif Require Import Model.Val Model.Res Model.Worker Proofs.ResP Proofs.ResP2 Proofs.WorkerP.
 Open Scope Z_scope.
 
 (* For every history of allocate / allocate_multiple / deallocate / get_allocated_resources on a
@@ -22,3 +22,49 @@ Theorem C04_res_nonneg : forall v ops, nonneg_vec v -> Forall rop_nonneg ops ->
   nonneg_vec (r_avail (r_run ops (r_new v))).
 Proof. exact ledger_nonneg. Qed.
 Print Assumptions C04_res_nonneg.
+
+(* a refused allocate_multiple changes NOTHING (available cells, totals, allocation dict) *)
+Theorem C04_res_refusal : forall R req c R' e,
+  Inv_ledger R -> Dict_ok R -> al_find c (r_allocs R) <> Some [] ->
+  r_allocate_multiple R req c = (R', Err e) -> R' = R.
+Proof. exact allocate_multiple_refusal. Qed.
+Print Assumptions C04_res_refusal.
+
+(* when nothing is allocated every cell is back at its configured total *)
+Theorem C04_res_empty_full : forall R, Inv_ledger R -> Dict_ok R ->
+  Forall (fun cl => snd cl = []) (r_allocs R) -> r_avail R = r_total R.
+Proof. exact nothing_allocated_full. Qed.
+Print Assumptions C04_res_empty_full.
+
+(* a deep copy is the initial, empty ledger *)
+Theorem C04_res_deepcopy : forall v ops, r_deepcopy (r_run ops (r_new v)) = r_new v.
+Proof. exact deepcopy_initial. Qed.
+Print Assumptions C04_res_deepcopy.
+
+(* conservation for every history of place (plain / batch) / remove / load / evict / step /
+   get_allocated_resources on a Worker ... *)
+Theorem C04_worker_conservation : forall id v ops, NoDup (map fst v) ->
+  let w := w_run ops (w_new id v) in
+  (forall P, sumP P (r_avail (w_res w)) + allocs_sum P (r_allocs (w_res w)) = sumP P v) /\
+  map fst (r_avail (w_res w)) = map fst v /\ r_total (w_res w) = v.
+Proof. exact worker_conservation. Qed.
+Print Assumptions C04_worker_conservation.
+Theorem C04_worker_nonneg : forall id v ops, nonneg_vec v -> Forall (wop_req_ok nonneg_vec) ops ->
+  nonneg_vec (r_avail (w_res (w_run ops (w_new id v)))).
+Proof. exact worker_nonneg. Qed.
+Print Assumptions C04_worker_nonneg.
+
+(* ... and for every history of place (every branch) / remove / load / evict / step on a WorkerPool,
+   for every worker of the pool *)
+Theorem C04_pool_conservation : forall ops P,
+  Forall (fun W => Res_ok (w_res W)) (p_workers P) ->
+  Forall (fun W => Res_ok (w_res W) /\
+                   forall Pk, sumP Pk (r_avail (w_res W)) + allocs_sum Pk (r_allocs (w_res W)) = sumP Pk (r_total (w_res W)))
+         (p_workers (p_run ops P)).
+Proof. exact pool_conservation. Qed.
+Print Assumptions C04_pool_conservation.
+Theorem C04_pool_nonneg : forall ops P,
+  Forall (fun W => Nonneg (w_res W)) (p_workers P) -> Forall (pop_req_ok nonneg_vec) ops ->
+  Forall (fun W => nonneg_vec (r_avail (w_res W))) (p_workers (p_run ops P)).
+Proof. exact pool_nonneg. Qed.
+Print Assumptions C04_pool_nonneg.
